@@ -4,5 +4,5 @@ Import ListNotations.
 (* driver helpers: numeric order on hashes (for printing dicts sorted by key) *)
 Definition c15_hash_leb (a b : hash) : bool := N.leb a b.
 Definition c15_best_weight (D : list header) (a : hash) : Z := max_weight D (chains_from (length D) D a).
-Extraction "../ml/c15.ml" drv_base run run_from step new_blockchain
+Extraction "../ml/c15.ml" drv_base run run_pre run_from step new_blockchain preload_locked_blocks
   c15_best_weight c15_hash_leb apply_ops load_nodes empty_finder find_ancestral_path all_chains_ending_at.
